@@ -1005,6 +1005,19 @@ the accepted prefix, the failure is reported -/
 example : Transport.flushChunks Transport.writeOnce [⟨3, some .temp⟩] [[1, 2, 3, 4, 5, 6, 7, 8], [9]] = ([1, 2, 3], false) := by
   decide
 
+def twoSiblings : List Tok :=
+  [.start ⟨"urn:a", "a"⟩ [], .stop ⟨"urn:a", "a"⟩, .start ⟨"urn:a", "b"⟩ [], .stop ⟨"urn:a", "b"⟩]
+
+/-- "exactly ONE complete top-level element" FAILS for `Encode` of a value that encodes to
+several sibling elements (its own tokens or printed): all of them are handed to the encoder and
+the call reports success (known finding `one-element / value-of-many-elements`; review A-5),
+whereas `Send` of the same tokens transmits the first element only (`C05_send_whole`) -/
+theorem C05_encode_one_element_fails :
+    topCount 0 (wireToks ⟨nsClient, ""⟩ "ID#" (ValueForms.handed .readerToks twoSiblings)) = 2 ∧
+    topCount 0 (wireToks ⟨nsClient, ""⟩ "ID#" (ValueForms.handed .marshalXML twoSiblings)) = 2 ∧
+    (sendToks twoSiblings).toOption.map (fun o => topCount 0 (wireToks ⟨nsClient, ""⟩ "ID#" o)) = some 1 := by
+  decide
+
 /-- regenerated PROBE fact (round E, review A-4): every exported method of `*xmpp.Session`, found
 by reflection and called on a fresh real session with synthesized arguments (and an unhandled IQ
 on the input, so that a serving method writes the automatic reply): whoever wrote to the
